@@ -44,6 +44,9 @@ type GenOpts struct {
 	// than the transaction's signer out of the histories (exclusion by construction of a listed
 	// finding) and counts how often that happened.
 	AvoidSenderNotSigner *int
+	// DowntimePct > 0: that share of the blocks has validators missing from the last commit
+	// (worlds with a short x/slashing window turn that into downtime slashes and jailing).
+	DowntimePct int
 	// PricePool, if set, replaces the pool of price strings of generated price submissions.
 	PricePool []string
 	// Dynamic, if set, adjusts the weights to the current state before every draw.
@@ -253,6 +256,39 @@ func (m *Machine) Draw(t *rapid.T, g *GenOpts) Action {
 		a.Dt = rapid.IntRange(1, maxDt).Draw(t, "dt")
 		if rapid.IntRange(0, 19).Draw(t, "gap?") == 0 {
 			a.Dt = rapid.IntRange(60, 400).Draw(t, "gap")
+		}
+		if g.DowntimePct > 0 && pct(t, g.DowntimePct, "downtime?") {
+			// some validators miss the commit (their keys are taken from the current set, so that
+			// the same ones can be kept down over consecutive blocks)
+			var in []int
+			for i, k := range m.Keys {
+				if m.C.ValSet.HasAddress(k.ConsAddr()) {
+					in = append(in, i)
+				}
+			}
+			if len(in) > 0 {
+				start := uniform(t, len(in), "down-first")
+				n := 1 + uniform(t, len(in), "down-n")
+				if !g.Anchor && n >= len(in) {
+					n = len(in) - 1 // somebody keeps signing: a chain without validators is out of scope
+				}
+				for j := 0; j < n && j < len(in); j++ {
+					k := in[(start+j)%len(in)]
+					if g.Anchor && k == 0 {
+						continue
+					}
+					a.Absent = append(a.Absent, k)
+				}
+				if m.downSticky != nil && pct(t, 70, "same-again?") {
+					a.Absent = a.Absent[:0]
+					for _, k := range m.downSticky {
+						if len(a.Absent) < len(in)-1 || g.Anchor {
+							a.Absent = append(a.Absent, k)
+						}
+					}
+				}
+				m.downSticky = append([]int{}, a.Absent...)
+			}
 		}
 	case "depositLST":
 		lst := m.lstAssets()
